@@ -39,6 +39,32 @@ fn roundtrip(st: &mut Stats, c: &Circuit, cls: &str) {
             }
         }
     }
+    // the same gate list assembled from both ends (push_back, then push_front: the gate deque is wrapped in its ring
+    // buffer) prints the same text
+    let gs: Vec<Gate> = c.gates.iter().cloned().collect();
+    for k in [1usize, gs.len() / 2] {
+        if k == 0 || k > gs.len() {
+            continue;
+        }
+        let r = guarded(|| {
+            let mut w = Circuit::new(c.num_qubits());
+            for g in &gs[k..] {
+                w.push_back(g.clone());
+            }
+            for g in gs[..k].iter().rev() {
+                w.push_front(g.clone());
+            }
+            w.to_qasm()
+        });
+        match r {
+            Err(p) => st.violation(Violation { sig: format!("to_qasm|panic|assembled-from-both-ends|{}", last_panic_site()), detail: p, witness: wit() }),
+            Ok(t) if t != txt => {
+                st.violation(Violation { sig: format!("to_qasm|{}|assembled-from-both-ends-prints-differently", cls), detail: format!("first {} gates pushed to the front afterwards:\n{}\ninstead of\n{}", k, t, txt), witness: wit() });
+                break;
+            }
+            Ok(_) => {}
+        }
+    }
 }
 
 /// gate kinds of the property's list with their arities
@@ -178,6 +204,11 @@ fn text_cases() -> Vec<TextCase> {
     out.push(TextCase { name: "late register".into(), text: format!("{}qreg q[2];\nh q[0];\nqreg r[2];\ncx q[0], r[1];\nx r[0];\n", hdr()), expect: Some((4, vec![("h".into(), vec![0], 0, 1), ("cx".into(), vec![0, 3], 0, 1), ("x".into(), vec![2], 0, 1)])), tol: 0.0 });
     out.push(TextCase { name: "late register after a definition".into(), text: format!("{}qreg a[1];\ngate foo x {{ h x; }}\nfoo a[0];\nqreg b[2];\ncreg m[1];\nqreg c[1];\ncz b[1], c[0];\n", hdr()), expect: Some((4, vec![("h".into(), vec![0], 0, 1), ("cz".into(), vec![2, 3], 0, 1)])), tol: 0.0 });
     out.push(TextCase { name: "late register unused".into(), text: format!("{}qreg a[1];\nx a[0];\nqreg b[3];\n", hdr()), expect: Some((4, vec![("x".into(), vec![0], 0, 1)])), tol: 0.0 });
+    // nested gate definitions, as deep as and deeper than the number of declared qubits
+    out.push(TextCase { name: "definition on one qubit".into(), text: format!("{}qreg q[1];\ngate foo a {{ h a; t a; }}\nfoo q[0];\n", hdr()), expect: Some((1, vec![("h".into(), vec![0], 0, 1), ("t".into(), vec![0], 0, 1)])), tol: 0.0 });
+    out.push(TextCase { name: "two-level definitions on two qubits".into(), text: format!("{}qreg q[2];\ngate inner a {{ s a; }}\ngate outer a, b {{ inner a; cx a, b; inner b; }}\nouter q[1], q[0];\n", hdr()), expect: Some((2, vec![("s".into(), vec![1], 0, 1), ("cx".into(), vec![1, 0], 0, 1), ("s".into(), vec![0], 0, 1)])), tol: 0.0 });
+    out.push(TextCase { name: "four-level definitions on three qubits".into(), text: format!("{}qreg q[3];\ngate l1 a {{ t a; }}\ngate l2 a {{ l1 a; h a; }}\ngate l3 a, b {{ l2 a; cz a, b; }}\ngate l4 a, b, c {{ l3 a, b; l3 b, c; }}\nl4 q[0], q[1], q[2];\n", hdr()), expect: Some((3, vec![("t".into(), vec![0], 0, 1), ("h".into(), vec![0], 0, 1), ("cz".into(), vec![0, 1], 0, 1), ("t".into(), vec![1], 0, 1), ("h".into(), vec![1], 0, 1), ("cz".into(), vec![1, 2], 0, 1)])), tol: 0.0 });
+    out.push(TextCase { name: "parameterised nested definition".into(), text: format!("{}qreg q[1];\ngate r(x) a {{ rz(x) a; }}\ngate rr(x) a {{ r(x) a; r(x/2) a; }}\nrr(pi/2) q[0];\n", hdr()), expect: Some((1, vec![("rz".into(), vec![0], 1, 2), ("rz".into(), vec![0], 1, 4)])), tol: 0.0 });
     // user-defined gates are expanded, comments and whitespace ignored
     out.push(TextCase { name: "gate definition".into(), text: format!("{}qreg q[2];\ngate foo a, b {{ h a; cx a, b; }}\n// comment\nfoo q[1], q[0];\n", hdr()), expect: Some((2, vec![("h".into(), vec![1], 0, 1), ("cx".into(), vec![1, 0], 0, 1)])), tol: 0.0 });
     out.push(TextCase { name: "all plain gates".into(), text: format!("{}qreg q[3];\nx q[0]; z q[1]; s q[2]; t q[0]; sdg q[1]; tdg q[2]; h q[0]; cx q[0],q[1]; cz q[1],q[2]; ccx q[0],q[1],q[2]; ccz q[2],q[1],q[0]; swap q[0],q[2]; xcx q[1],q[0]; init_anc q[2]; post_sel q[2];\n", hdr()),
